@@ -903,6 +903,53 @@ def r6_loops(facts, rep, ats):
     rep.floor("C12-R6", "loops in lexer functions", n, 3)
 
 
+def r9_same_text(facts, rep):
+    rep.rule("C12-R9", "the text that is parsed is the text that is kept: in the summary of query::parse the string handed to "
+                       "Parser::new and the `source` stored in the result (against which every span is read back) are both the "
+                       "caller's string, unchanged")
+    body = facts.fn("query::parse")
+    if body is None:
+        rep.ob("C12-R9", "anchor:query::parse", False, "query::parse not found")
+        return
+    from ..absint.term import EffectDomain
+
+    def oracle(dom, it, name, args, vals, store):
+        if name.startswith("syntax::parser::Parser") and name.endswith("::new"):
+            return [(Sym("parser"), dom.with_log(store, ("parser-new", vals[0])))]
+        if name.startswith("syntax::parser::Parser") and ("::parse_root" in name or "::parse_unit" in name):
+            return [(core.ok(Sym("tree")), store), (core.err(Sym("parse_error")), store)]
+        return None
+    dom = EffectDomain({}, oracle=oracle)
+    dom.uninterp = lambda n: facts.fn(n) is None
+    it = core.Interp(facts, dom, budget=20000)
+    try:
+        outs = it.run(body, [Sym("text")], {})
+    except core.Undecided as e:
+        rep.ob("C12-R9", "parse:summary", False, "undecided: %s" % e, body.site())
+        return
+    adt = facts.adt("query::Parsed")
+    names = [f["name"] for f in adt["variants"][0]["fields"]] if adt else []
+    n_ok = 0
+    bad = []
+    for o in outs:
+        if o.kind != "ret":
+            bad.append("parse can end in %s" % o.kind)
+            continue
+        v = o.value
+        if not (isinstance(v, Agg) and v.path == "std::result::Result" and v.vi == 0):
+            continue
+        n_ok += 1
+        handed = [e[1] for e in dom.log(o.store) if e[0] == "parser-new"]
+        p_ = v.field(0)
+        kept = [f for f, ty in zip(p_.fields, [x["ty"] for x in adt["variants"][0]["fields"]]) if ty.startswith("&") and "str" in ty] if isinstance(p_, Agg) and adt else []
+        if handed != [Sym("text")]:
+            bad.append("the parser is given %r, not the caller's text" % (handed,))
+        if kept != [Sym("text")]:
+            bad.append("the result keeps %r as its source, not the caller's text" % (kept,))
+    rep.ob("C12-R9", "parse:same-text", not bad and n_ok >= 1, "; ".join(bad[:2]) if bad else
+           "Parser::new(text) and Parsed { source: text, .. } on the %d successful path(s)" % n_ok, body.site())
+
+
 def run(fx, rep, tier):
     rep.assume("syntree::Builder builds the tree it is told to (trusted)")
     rep.assume("char::is_whitespace is the Unicode White_Space property (table copied from the Unicode standard)")
@@ -913,6 +960,29 @@ def run(fx, rep, tier):
         r5_forwarding(facts, sub)
         consts, preds, unknown = chars.char_constants(lexer_bodies(facts))
         r6_loops(facts, sub, chars.atoms(consts, preds))
+        if cfg == "dev":
+            r9_same_text(facts, sub)
+            # the grammar relies on the parser's primitives doing exactly what they say (a stale count that `skip` does not
+            # honour loses tokens at the end of the input), and a slice of the text off a character boundary is a crash
+            from . import c06, c11
+            sub.rule("C12-R7", "the parser primitives consume exactly what they promise: nth / eat / skip / count_skip as "
+                               "summaries on the abstract parser state (shared with C06-R4)")
+            s7 = type(rep)(rep.prop, rep.tier)
+            c06.r4_offset(facts, s7)
+            for o in s7.obls:
+                o["rule"] = "C12-R7"
+                sub.obls.append(o)
+            sub.rule("C12-R8", "every slice the lexer and parser take of the text runs between positions the lexer reached "
+                               "(character boundaries): the index obligations of C11-R1 for syntax::*")
+            s8 = type(rep)(rep.prop, rep.tier)
+            c11.r1_census(facts, s8, {"dev": facts})
+            n8 = 0
+            for o in s8.obls:
+                if o["key"].startswith("index:") and "syntax::" in o["key"]:
+                    o["rule"] = "C12-R8"
+                    sub.obls.append(o)
+                    n8 += 1
+            sub.floor("C12-R8", "text slices in the lexer / parser", n8, 1)
         if sub is not rep:
             for o in sub.obls:
                 o["key"] += "[rel]"
